@@ -44,7 +44,7 @@ def runFromO {σ : Type} (cfg : Cfg) (obs : Option StageObs) : Nat → List (Sta
 
 /-- the reported result and the list of stages the observer was shown -/
 def resultO {σ : Type} (cfg : Cfg) (obs : Option StageObs) (stages : List (Stage σ)) (x : σ) : Result σ × List Nat :=
-  let r := runFromO cfg obs 0 stages ⟨x, 1, none⟩
+  let r := runFromO cfg obs 0 stages ⟨x, clamp cfg 1, none⟩
   let c := completedCount r.1.results
   let ok := c == stages.length && r.1.acc.blockedAt.isNone
   ({ success := ok, final := if ok then some r.1.acc.cur else none, completed := c, total := stages.length
